@@ -6,6 +6,7 @@
 package sniffing
 
 import (
+	"encoding/binary"
 	"errors"
 	"io/fs"
 
@@ -27,7 +28,19 @@ const (
 
 const (
 	QuicVersion1 = 0x00000001
+	QuicVersion2 = 0x6b3343cf
 )
+
+// isQuicInitialPacketType reports whether the long-header packet type bits of flag denote an
+// Initial packet for the version carried in buf[1:5]. QUIC v2 renumbered the long packet types:
+// Initial is 0b01 there and 0b00 is Retry (RFC 9369, section 3.2). len(buf) must be >= 5.
+func isQuicInitialPacketType(buf []byte) bool {
+	typ := (buf[0] >> QuicFlag_LongPacketType) & 0b11
+	if binary.BigEndian.Uint32(buf[1:5]) == QuicVersion2 {
+		return typ == 0b01
+	}
+	return typ == QuicFlag_LongPacketType_Initial
+}
 
 // IsLikelyQuicInitialPacket checks if the buffer appears to be a QUIC Initial packet.
 // It validates the Long Header format and Initial packet type.
@@ -45,7 +58,7 @@ func IsLikelyQuicInitialPacket(buf []byte) bool {
 	if ((protectedFlag >> QuicFlag_HeaderForm) & 0b1) != QuicFlag_HeaderForm_LongHeader {
 		return false
 	}
-	if ((protectedFlag >> QuicFlag_LongPacketType) & 0b11) != QuicFlag_LongPacketType_Initial {
+	if !isQuicInitialPacketType(buf) {
 		return false
 	}
 
@@ -124,7 +137,7 @@ func sniffQuicBlock(s *Sniffer, cryptos []*quicutils.CryptoFrameOffset, buf []by
 	if ((protectedFlag >> QuicFlag_HeaderForm) & 0b11) != QuicFlag_HeaderForm_LongHeader {
 		return cryptos, nil, ErrNotApplicable
 	}
-	if ((protectedFlag >> QuicFlag_LongPacketType) & 0b11) != QuicFlag_LongPacketType_Initial {
+	if !isQuicInitialPacketType(buf) {
 		return cryptos, nil, ErrNotApplicable
 	}
 
